@@ -12,11 +12,8 @@ import SoyVerif.Ops.Writer
 import SoyVerif.Ops.Escape
 import SoyVerif.Ops.Value
 import SoyVerif.Ops.Msg
-<<<<<<< HEAD
 import SoyVerif.Ops.JsGen
-=======
 import SoyVerif.Ops.Lexer
->>>>>>> main
 
 open SoyVerif SoyVerif.Ops
 
@@ -29,11 +26,8 @@ def allOps : List Op :=
   Ops.Escape.ops ++
   Ops.Value.ops ++
   Ops.Msg.ops ++
-<<<<<<< HEAD
-  Ops.JsGen.ops
-=======
+  Ops.JsGen.ops ++
   Ops.Lexer.ops
->>>>>>> main
 
 def handle (op : String) (f : List String) : String :=
   match allOps.find? (·.1 == op) with
